@@ -95,6 +95,7 @@ var c19Shapes = []c19Shape{
 const c19AfterBase = 1 << 20
 
 type c19Out struct {
+	errAfter error // plain shapes: error of one more send and one more receive attempted with the ended context
 	err      error
 	returned bool
 	closed   bool
@@ -159,6 +160,18 @@ func c19Plain(sh c19Shape, stall int, ctx context.Context, onStall func()) *c19O
 		defer wg.Done()
 		defer w.Done()
 		defer func() { out.returned = true }()
+		defer func() {
+			// an application that tries once more with the same (ended) context gets the context's
+			// error again - the connection being closed already does not change what went wrong
+			if out.err != nil && ctx.Err() != nil {
+				if e := sa.SendMessage(ctx, []byte("once-more")); e != nil {
+					out.errAfter = e
+				}
+				if _, e := sa.ReceiveCompleteMessage(ctx); e != nil && (out.errAfter == nil || errors.Is(out.errAfter, ctx.Err())) {
+					out.errAfter = e
+				}
+			}
+		}()
 		for i := 0; i < 3; i++ {
 			if sh.role == "typed" {
 				m := message.NewMessageForStream(sa)
@@ -356,6 +369,9 @@ func C19Plan() *vlib.Plan {
 				}
 				if plain && !errors.Is(out.err, ctxErr) {
 					res.Violate(fmt.Sprintf("C19/wrong-error/%s/%s", sh.name, label), "shape %s %s: error %q is not the context's error %v", sh.name, label, out.err, ctxErr)
+				}
+				if plain && out.errAfter != nil && !errors.Is(out.errAfter, ctxErr) {
+					res.Violate(fmt.Sprintf("C19/wrong-error/%s/%s/next-operation", sh.name, label), "shape %s %s: a further operation with the ended context returned %q, not the context's error %v", sh.name, label, out.errAfter, ctxErr)
 				}
 				if !out.closed {
 					res.Violate(fmt.Sprintf("C19/conn-left-open/%s/%s", sh.name, label), "shape %s %s: the connection was not closed after cancellation (err %v)", sh.name, label, out.err)
